@@ -538,6 +538,17 @@ impl Property for C18 {
             c.as_ref().unwrap().1.clone()
         });
         let mut rng = Rng::stream(run_seed, "workload");
+        // now and then: the smallest text of the recorded finding (redxor over a huge declared
+        // width), so that every tier meets it and reports it as KNOWN-FINDING
+        if Rng::stream(run_seed, "directed").chance(1, 40) {
+            let text = "1 sort bitvec 2147483648\n2 input 1\n3 sort bitvec 1\n4 redxor 3 2\n5 bad 4\n";
+            acc.evaluations += 1;
+            acc.count("probe.directed_redxor_on_huge_width", 1);
+            if let Some(v) = judge_text(text.as_bytes(), acc) {
+                let scn = StoreScenario { base_name: "directed".into(), base_text: text.into(), faults: vec![] };
+                return Some((v, scn.to_json()));
+            }
+        }
         // base: a shipped file or a generated system
         let (base_name, base_text) = if !files.is_empty() && rng.chance(2, 3) {
             files[rng.usize_below(files.len())].clone()
